@@ -770,4 +770,219 @@ theorem empty_split_yields_flow {σ S C : Type} (s : Split σ S C) (h : s.branch
     (flow : List (Item S)) : s.run st0 flow = (flow, st0) := by
   simp [Split.run, h]
 
+
+/-! ## adversary round: `NumpyHistogram`; user mutators that change everything reachable in place
+
+`AccKind.numpyHist` (`lena/structures/numpy_histogram.py` with `hist_functions.make_hist_context`) is a modelled
+framework accumulator like the others: `accOps_freshYield`, `accOps_tidy_instance`, `downstream_updates_harmless`
+hold for it (they quantify over all `k` with `k.fresh`).  The theorems below state what that means for it, and what
+its `request()` does to the heap.  `Step.touch` / `Step.touchc` (the user elements that change every mutable object
+reachable from the data / the context) are steps of the executable model, so `harness_branches_local`,
+`harness_branch_alone_equiv`, `fcseq_freshYield` cover branches that contain them. -/
+
+/-- **`NumpyHistogram.request()`** from a state whose `_cur_context` is the object `c`: it yields one value whose
+context is the new object `(ns, s.ctr)`; that object holds the content of `c` with the entry `"histogram"` set; *no
+other object changes* — in particular not `c`, the context of the value filled last (`make_hist_context` updates a
+deep copy) — and `_cur_context` is still `c`. -/
+theorem numpyHist_request_spec (ns : Nat) (st : Store Value) (s : HSt) (c : Tok) (hc : s.acc.cur = some c) :
+    ((accOps ns .numpyHist).act st s .request).2.2.outs = [mkItem (.str "hist") (some (ns, s.ctr))] ∧
+    ((accOps ns .numpyHist).act st s .request).1 (ns, s.ctr) =
+      .dict (Lena.Flow.dictSet (ctxOf (st c)) "histogram" histContext) ∧
+    (∀ t, t ≠ (ns, s.ctr) → ((accOps ns .numpyHist).act st s .request).1 t = st t) ∧
+    ((accOps ns .numpyHist).act st s .request).2.1.acc.cur = some c ∧
+    ((accOps ns .numpyHist).act st s .request).2.1.ctr = s.ctr + 1 := by
+  simp only [accOps, hOps, hAct, hActM, accCompute, curTok, hc, M.bind_run, M.pure_run, copyM_run, updM_run]
+  refine ⟨?_, ?_, ?_, ?_, ?_⟩
+  · trivial
+  · simp [Store.set]
+  · intro t ht
+    simp [Store.set, ht]
+  · trivial
+  · trivial
+
+/-- **Every context yielded by `NumpyHistogram.request()` is new** (`reset=False`): `acc_yield_fresh` for it — in
+every history of `fill` / `request` / `reset()` invocations interleaved with arbitrary in-place changes of the heap,
+the context yielded by a `request()` is an object of no value filled before and of no value yielded before. -/
+theorem numpyHist_yield_fresh (ns : Nat) (h : List (HOp HSt Skel Value)) (st : Store Value) (s : HSt)
+    (hacc : ∀ r, HOp.req r ∈ h → r.isAcc = true)
+    (hupd : ∀ g, HOp.upd g ∈ h → ∀ s : HSt, s.ctr ≤ (g s).ctr)
+    (hin : ∀ e ∈ runHist (accOps ns .numpyHist) (fun s : HSt => s.ctr) st s h, ∀ t ∈ e.req.cells, t.1 = ns → t.2 < e.ctr)
+    (pre : List (HEv Skel)) (e : HEv Skel) (post : List (HEv Skel))
+    (heq : runHist (accOps ns .numpyHist) (fun s : HSt => s.ctr) st s h = pre ++ e :: post) :
+    (cellsOf e.resp.outs).Nodup ∧
+    ∀ t ∈ cellsOf e.resp.outs, ∀ e' ∈ pre, t ∉ e'.req.cells ∧ t ∉ cellsOf e'.resp.outs :=
+  acc_yield_fresh (accOps ns .numpyHist) ns (fun s : HSt => s.ctr) (accOps_freshYield ns .numpyHist rfl) h st s
+    hacc hupd hin pre e post heq
+
+/-- `reset()` of an accumulator as a step of a history -/
+def resetOp : HOp HSt Skel Value := .upd (fun s => { s with acc := accReset s.acc })
+
+/-- `NumpyHistogram(reset=True)`: every `request()` is followed by `self.reset()` (numpy_histogram.py:69-70) -/
+def withReset : List (HOp HSt Skel Value) → List (HOp HSt Skel Value)
+  | [] => []
+  | .req .request :: h => .req .request :: resetOp :: withReset h
+  | op :: h => op :: withReset h
+
+theorem withReset_req (r : Req Skel) : ∀ h : List (HOp HSt Skel Value), HOp.req r ∈ withReset h → HOp.req r ∈ h := by
+  intro h
+  induction h with
+  | nil => intro hm; exact hm
+  | cons op h ih =>
+    intro hm
+    cases op with
+    | req r' =>
+      cases r' <;> simp only [withReset, resetOp, List.mem_cons, HOp.req.injEq, reduceCtorEq, false_or] at hm ⊢ <;>
+        rcases hm with hm | hm <;> first | exact Or.inl hm | exact Or.inr (ih hm)
+    | ext f =>
+      simp only [withReset, List.mem_cons, reduceCtorEq, false_or] at hm ⊢
+      exact ih hm
+    | upd g =>
+      simp only [withReset, List.mem_cons, reduceCtorEq, false_or] at hm ⊢
+      exact ih hm
+
+theorem withReset_upd (g : HSt → HSt) : ∀ h : List (HOp HSt Skel Value), HOp.upd g ∈ withReset h →
+    HOp.upd g ∈ h ∨ g = (fun s => { s with acc := accReset s.acc }) := by
+  intro h
+  induction h with
+  | nil => intro hm; exact Or.inl hm
+  | cons op h ih =>
+    intro hm
+    cases op with
+    | req r' =>
+      cases r' <;> simp only [withReset, resetOp, List.mem_cons, HOp.upd.injEq, reduceCtorEq, false_or] at hm ⊢
+      case request =>
+        rcases hm with hm | hm
+        · exact Or.inr hm
+        · exact ih hm
+      all_goals exact ih hm
+    | ext f =>
+      simp only [withReset, List.mem_cons, reduceCtorEq, false_or] at hm ⊢
+      exact ih hm
+    | upd g' =>
+      simp only [withReset, List.mem_cons, HOp.upd.injEq] at hm ⊢
+      rcases hm with hm | hm
+      · exact Or.inl (Or.inl hm)
+      · rcases ih hm with h1 | h1
+        · exact Or.inl (Or.inr h1)
+        · exact Or.inr h1
+
+/-- **… and with `reset=True`**: the same for every history in which each `request()` is followed by the `reset()`
+that `NumpyHistogram(reset=True).request()` performs.  (The hypotheses are those of `acc_yield_fresh`, stated for the
+history the user wrote — `h` — except `hin`, which speaks about the run itself.) -/
+theorem numpyHist_reset_yield_fresh (ns : Nat) (h : List (HOp HSt Skel Value)) (st : Store Value) (s : HSt)
+    (hacc : ∀ r, HOp.req r ∈ h → r.isAcc = true)
+    (hupd : ∀ g, HOp.upd g ∈ h → ∀ s : HSt, s.ctr ≤ (g s).ctr)
+    (hin : ∀ e ∈ runHist (accOps ns .numpyHist) (fun s : HSt => s.ctr) st s (withReset h),
+      ∀ t ∈ e.req.cells, t.1 = ns → t.2 < e.ctr)
+    (pre : List (HEv Skel)) (e : HEv Skel) (post : List (HEv Skel))
+    (heq : runHist (accOps ns .numpyHist) (fun s : HSt => s.ctr) st s (withReset h) = pre ++ e :: post) :
+    (cellsOf e.resp.outs).Nodup ∧
+    ∀ t ∈ cellsOf e.resp.outs, ∀ e' ∈ pre, t ∉ e'.req.cells ∧ t ∉ cellsOf e'.resp.outs := by
+  refine numpyHist_yield_fresh ns (withReset h) st s (fun r hr => hacc r (withReset_req r h hr)) ?_ hin pre e post heq
+  intro g hg s'
+  rcases withReset_upd g h hg with hg | hg
+  · exact hupd g hg s'
+  · subst hg; exact Nat.le_refl _
+
+/-- non-vacuity: `NumpyHistogram(reset=True)` filled with two upstream values, requested, requested again (after the
+reset: from the new `{}`), filled, requested: the hypotheses of `numpyHist_reset_yield_fresh` hold; the three
+contexts are three new objects — none is the object `(0, 1)` of the value filled last —, the first carries the
+content of that object plus the `"histogram"` entry, the second only the `"histogram"` entry, and the filled
+context still has its own content afterwards. -/
+example :
+    let ops := accOps (ownNs 0) .numpyHist
+    let x : HItem := mkItem (.int 1) (some (upNs, 0))
+    let y : HItem := mkItem (.int 3) (some (upNs, 1))
+    let h : List (HOp HSt Skel Value) := [.req (.fill x), .req (.fill y), .req .request, .req .request, .req (.fill x), .req .request]
+    let st0 : Store Value := fun t => .dict [("variable", .dict [("name", .str "x"), ("range", .list [.int 0, .int t.2])])]
+    (∀ r, HOp.req r ∈ h → r.isAcc = true) ∧
+    (∀ e ∈ runHist ops (fun s : HSt => s.ctr) st0 {} (withReset h), ∀ t ∈ e.req.cells, t.1 = ownNs 0 → t.2 < e.ctr) ∧
+    (runHist ops (fun s : HSt => s.ctr) st0 {} (withReset h)).map (fun e => cellsOf e.resp.outs)
+      = [[], [], [(2, 0)], [(2, 2)], [], [(2, 3)]] ∧
+    (runHistS ops st0 {} (withReset h)).map (fun e => e.2.2)
+      = [[], [],
+         [.dict [("variable", .dict [("name", .str "x"), ("range", .list [.int 0, .int 1])]), ("histogram", histContext)]],
+         [.dict [("histogram", histContext)]], [],
+         [.dict [("variable", .dict [("name", .str "x"), ("range", .list [.int 0, .int 0])]), ("histogram", histContext)]]] := by
+  refine ⟨?_, by decide, by decide, by rfl⟩
+  intro r hr
+  simp only [List.mem_cons, HOp.req.injEq, List.not_mem_nil, or_false] at hr
+  rcases hr with rfl | rfl | rfl | rfl | rfl | rfl <;> rfl
+
+/-! ### the user mutators `touch` / `touchc` -/
+
+theorem touchList_length (v : Int) : ∀ xs : List Value, (touchList v xs).length = xs.length := by
+  intro xs
+  induction xs with
+  | nil => simp [touchList]
+  | cons x xs ih => simp [touchList, ih]
+
+/-- `deepTouch` is visible on every list-like object: it gets one more element (so a branch that was handed an object
+another branch also holds would show it) -/
+theorem touch_visible_list (v : Int) (xs : List Value) : touchVal v (.list xs) ≠ .list xs := by
+  intro h
+  simp only [touchVal, Value.list.injEq] at h
+  have := congrArg List.length h
+  simp [touchList_length] at this
+
+theorem lookup_dictSet_self (k : String) (u : Value) : ∀ l : Lena.Flow.Ctx, (Lena.Flow.dictSet l k u).lookup k = some u := by
+  intro l
+  induction l with
+  | nil => simp [Lena.Flow.dictSet, List.lookup]
+  | cons kv l ih =>
+    obtain ⟨k', v'⟩ := kv
+    simp only [Lena.Flow.dictSet]
+    split
+    · simp [List.lookup]
+    · rename_i hne
+      have : (k == k') = false := by
+        simp only [beq_eq_false_iff_ne, ne_eq]
+        exact fun e => hne e.symm
+      simp [List.lookup, this, ih]
+
+/-- … and on every dictionary / object with attributes: it carries the mark `m = v` afterwards -/
+theorem touch_marks_dict (v : Int) (kvs : Lena.Flow.Ctx) : (ctxOf (touchVal v (.dict kvs))).lookup "m" = some (.int v) := by
+  simp only [touchVal, ctxOf]
+  exact lookup_dictSet_self "m" (.int v) _
+
+/-- the mutation reaches the objects nested inside (here: an event with a list of hits and a sub-dictionary holding
+a tuple with a list) -/
+example :
+    touchVal 5 (.dict [("hits", .list [.int 1]), ("sub", .dict [("t", .tup [.int 0, .list []])])]) =
+      .dict [("hits", .list [.int 1, .int 5]), ("sub", .dict [("t", .tup [.int 0, .list [.int 5]]), ("m", .int 5)]),
+             ("m", .int 5)] := by
+  rfl
+
+/-- two branches that change everything reachable from the data (and, the second, from the context) in place -/
+def touchSpecs : List BSpec :=
+  [ { kind := .fillCompute, steps := [.touch 1], term := .keepLast, srcN := 0 },
+    { kind := .sequence, steps := [.touch 2, .touchc 2], term := .store, srcN := 0 } ]
+
+/-- two values whose data are objects with nested mutable content (cells `(0, 0)`, `(0, 2)`), each with a context -/
+def touchFlow : List HItem :=
+  [ { skel := { data := none, hasCtx := true }, cells := [(upNs, 0), (upNs, 1)] },
+    { skel := { data := none, hasCtx := true }, cells := [(upNs, 2), (upNs, 3)] } ]
+
+def touchStore : Store Value := fun t =>
+  if t.2 % 2 = 0 then .dict [("hits", .list [.int 7])] else .dict [("n", .dict [("i", .list [])])]
+
+/-- non-vacuity of `harness_branch_alone_equiv` for such branches: the hypotheses hold, … -/
+example : ∀ b ∈ mkBranches 0 touchSpecs, ∃ sched : List (List HItem × List HItem × Bool),
+    sched.map (·.1) = (blocks none touchFlow).take sched.length ∧ (∀ e ∈ sched, SchedOK b.id e) ∧
+    proj b.id ((Split.runTrace { branches := mkBranches 0 touchSpecs, bufsize := none, copyBuf := true }
+      touchStore touchFlow).1) = aloneTrace touchStore b sched (blocks none touchFlow).isEmpty :=
+  fun b hb => harness_branch_alone_equiv touchSpecs (by decide) none (by decide) _ touchFlow (by decide) (by decide) b hb
+
+/-- … and in the run the first branch (on its copies) sees only its own mark `1`, the second (on the originals) only
+its own mark `2`, at every depth: what is yielded, with the contents at the moment of the yield -/
+example :
+    ((Split.runTrace { branches := mkBranches 0 touchSpecs, bufsize := none, copyBuf := true } touchStore touchFlow).1).filterMap
+      (fun e => match e with
+        | .out i _ snap => some (i, snap)
+        | _ => none) =
+    [ (1, [.dict [("hits", .list [.int 7, .int 2]), ("m", .int 2)], .dict [("n", .dict [("i", .list [.int 2]), ("m", .int 2)]), ("m", .int 2)]]),
+      (1, [.dict [("hits", .list [.int 7, .int 2]), ("m", .int 2)], .dict [("n", .dict [("i", .list [.int 2]), ("m", .int 2)]), ("m", .int 2)]]),
+      (0, [.dict [("hits", .list [.int 7, .int 1]), ("m", .int 1)], .dict [("n", .dict [("i", .list [])])]]) ] := by
+  rfl
+
 end Lena.C04
